@@ -129,3 +129,94 @@ pub fn repair_esi(class: u64, r: u64, k: u32) -> u32 {
         _ => k + (r % 5000) as u32,
     }
 }
+
+// ---------------------------------------------------------------------------------------------
+// objects and packet pools (C01, C08)
+// ---------------------------------------------------------------------------------------------
+
+use raptorq::{Encoder, EncodingPacket};
+
+#[derive(Debug, Clone)]
+pub struct ObjectSpec {
+    pub al: usize,
+    /// T / Al
+    pub tu: usize,
+    pub z: usize,
+    pub n: usize,
+    pub kt: usize,
+    /// bytes in the last symbol, 1..=T
+    pub r: usize,
+    pub class: u64,
+    pub seed: u64,
+}
+
+impl ObjectSpec {
+    pub fn t(&self) -> usize {
+        self.tu * self.al
+    }
+    pub fn f(&self) -> usize {
+        (self.kt - 1) * self.t() + self.r.clamp(1, self.t())
+    }
+    pub fn cfg(&self) -> ObjectTransmissionInformation {
+        ObjectTransmissionInformation::new(
+            self.f() as u64,
+            self.t() as u16,
+            self.z as u8,
+            self.n as u16,
+            self.al as u8,
+        )
+    }
+    pub fn data(&self) -> Vec<u8> {
+        make_data(data_class_from(self.class), self.seed, self.f())
+    }
+    pub fn to_json(&self) -> serde_json::Value {
+        serde_json::json!({"al": self.al, "tu": self.tu, "z": self.z, "n": self.n, "kt": self.kt, "r": self.r, "class": self.class, "seed": self.seed})
+    }
+    pub fn from_json(v: &serde_json::Value) -> Self {
+        let g = |k: &str| v[k].as_u64().unwrap();
+        ObjectSpec { al: g("al") as usize, tu: g("tu") as usize, z: g("z") as usize, n: g("n") as usize, kt: g("kt") as usize, r: g("r") as usize, class: g("class"), seed: g("seed") }
+    }
+}
+
+/// All source packets of every block plus, per block, repair packets from three ESI classes.
+pub struct Pool {
+    pub packets: Vec<EncodingPacket>,
+    /// K per block
+    pub ks: Vec<u32>,
+    /// indices into `packets` of the source packets, per block
+    pub source_idx: Vec<Vec<usize>>,
+}
+
+pub fn build_pool(enc: &Encoder, seed: u64, repair_per_block: impl Fn(u32) -> usize) -> Pool {
+    let mut rng = SplitMix::new(seed ^ 0x9001);
+    let mut packets = vec![];
+    let mut ks = vec![];
+    let mut source_idx = vec![];
+    for blk in enc.get_block_encoders() {
+        let src = blk.source_packets();
+        let k = src.len() as u32;
+        ks.push(k);
+        let mut idx = vec![];
+        for p in src {
+            idx.push(packets.len());
+            packets.push(p);
+        }
+        source_idx.push(idx);
+        let mut esis = std::collections::BTreeSet::new();
+        let want = repair_per_block(k);
+        let mut guard = 0;
+        while esis.len() < want && guard < want * 20 {
+            guard += 1;
+            esis.insert(repair_esi(rng.next_u64(), rng.next_u64(), k));
+        }
+        for e in esis {
+            packets.extend(blk.repair_packets(e - k, 1));
+        }
+    }
+    Pool { packets, ks, source_idx }
+}
+
+/// Map a raw 16-bit index monotonically onto 0..len.
+pub fn map_index(raw: u16, len: usize) -> usize {
+    ((raw as usize) * len) >> 16
+}
